@@ -78,13 +78,15 @@ theorem C08_goodbyes_all_step (h h' : Host) (due : Int) (out : List Pkt) (hd : h
   simp only [this, if_true]
   exact ⟨_, List.mem_append_right _ (List.mem_singleton.2 rfl), rfl, rfl, by simp [unregisterTime_eq, hdue]⟩
 
-/-- **No resurrection.**  Take any reachable host (`hpre`: any history from the initial state), unregister `s`, and let
+/-- **No resurrection** (`_partial`: "those records" = the records the goodbye carried, up to record identity *rdata included*;
+the English-level reading by owner name and type is `C08_no_resurrection_by_name`, refuted below — known finding D20).
+Take any reachable host (`hpre`: any history from the initial state), unregister `s`, and let
 anything happen afterwards (`hrun`: any enabled blocks — task steps still pending, answers that were queued before,
 queue timers, new queries answered from the registry, other services coming and going, close) except registering again
 a service that defines one of the withdrawn records (`hno`).  Then no datagram the host sends from the unregister block
 on — in particular none after the third goodbye — carries one of the withdrawn records (up to record identity: name
 case-insensitively, type, class, rdata) with a non-zero TTL. -/
-theorem C08_no_resurrection (pre : List Block) (h0 : Host) (out0 : List Pkt) (hpre : Host.init.run lower pre = some (h0, out0))
+theorem C08_no_resurrection_partial (pre : List Block) (h0 : Host) (out0 : List Pkt) (hpre : Host.init.run lower pre = some (h0, out0))
     (s : Svc) (oid : Nat) (now : Int) (h1 : Host) (out1 : List Pkt) (hs : h0.step lower (.unregister s oid now) = some (h1, out1))
     (bs : List Block) (h2 : Host) (out2 : List Pkt) (hrun : h1.run lower bs = some (h2, out2))
     (hno : ∀ b ∈ bs, ¬ reRegisters lower (withdrawn s (hostShared lower h1.reg s)) b) :
@@ -260,6 +262,62 @@ theorem C08_closed_silent : ∀ (bs : List Block) (h h' : Host) (out : List Pkt)
     have s1 := step b h h1 out1 hd hs
     have s2 := ih h1 h2 out2 s1.2 hr2
     exact ⟨by simp [s1.1, s2.1], s2.2⟩
+
+/-- the synchronous `unregister_service(info)` returns only after all three goodbyes were handed to `async_send` (D19 repair:
+`await_awaitable`), so that the library's own shutdown sequence `unregister_service(info); close()` cannot cut them.  A statement
+about the wrapper's shape (translated leaf); the threads are exercised by the harness' `sync` stream, not modelled. -/
+theorem C08_sync_unregister_waits : syncUnregisterGoodbyesOnReturn = 3 := by
+  simp [syncUnregisterGoodbyesOnReturn, sync_wrappers_await.1, Zc.GenFacts.Register.broadcast_count_eq]
+
+/-! ### the English-level reading: "its PTR, SRV, TXT records" by owner name and type (known finding D20) -/
+
+/-- `r` is a record *of the service instance* `s` whatever its rdata: SRV / TXT / NSEC owned by the instance name, or a PTR to it -/
+def ofService (s : Svc) (r : Rec) : Bool :=
+  ((r.type == 33 || r.type == 16 || r.type == 47) && lower r.name == lower s.name) ||
+  (r.type == 12 && (match r.rdata with | .ptr a => lower a == lower s.name | _ => false))
+
+/-- a block that registers (or updates) a service of that name again -/
+def reRegistersName (s : Svc) : Block → Bool
+  | .register s' _ _ => lower s'.name == lower s.name
+  | .update s' _ _ => lower s'.name == lower s.name
+  | _ => false
+
+/-- history, then the unregister block, then a continuation: everything sent from the unregister block on -/
+def runThen (pre : List Block) (b : Block) (bs : List Block) : Option (List Pkt) :=
+  match Host.init.run lower pre with
+  | none => none
+  | some (h0, _) =>
+    match h0.step lower b with
+    | none => none
+    | some (h1, o1) =>
+      match h1.run lower bs with
+      | none => none
+      | some (_, o2) => some (o1 ++ o2)
+
+def cleanByName (s : Svc) (out : List Pkt) : Bool :=
+  out.all (fun p => (p.answers ++ p.authorities ++ p.additionals).all (fun r => r.ttl == 0 || !ofService lower s r))
+
+/-- full strength, as the English sentence reads to a peer whose cache keys unique records by owner name and type: after the
+unregister block no SRV / TXT / NSEC / PTR record *of that instance* — whatever its rdata — leaves with a non-zero TTL, unless the
+name is registered again -/
+def C08_no_resurrection_by_name : Prop :=
+  ∀ (pre : List Block) (s : Svc) (oid : Nat) (now : Int) (bs : List Block),
+    (∀ b ∈ bs, reRegistersName lower s b = false) →
+    (runThen lower pre (.unregister s oid now) bs).all (cleanByName lower s) = true   -- `none` (a block not enabled): nothing to show
+
+private def d20old : Svc :=
+  { type := "_http._tcp.local.", name := "svc._http._tcp.local.", server := "host.local.", port := 80, weight := 0, priority := 0,
+    text := [], v4 := [[10, 0, 0, 1]], v6 := [], hostTtl := 120, otherTtl := 4500 }
+private def d20new : Svc := { d20old with port := 81 }
+
+/-- **false of the code** (known finding D20, `C08:superseded-record-sent-after-goodbye`): register with port 80; an SRV answer is
+queued (flood-delayed); `update_service` through a new object with port 81 — the update purges nothing; unregister: the purge list is
+built from the *new* info, the port-80 SRV stays queued and is multicast with TTL 120 when the queue timer fires after the goodbyes -/
+theorem C08_no_resurrection_by_name_refuted : ¬ C08_no_resurrection_by_name id := by
+  intro h
+  have := h [.register d20old 1 350, .enqueue true 1100 60 [(d20old.srv none, d20old.addrNsec none)], .update d20new 2 1110]
+    d20new 2 1120 [.task 2 (some 0) true 1120, .task 2 (some 0) true 1245, .task 2 (some 0) true 1370, .ready true 2160] (by decide)
+  exact absurd this (by decide)
 
 /-! ### non-vacuity: a history in which an answer is queued when the service is withdrawn -/
 
